@@ -160,29 +160,33 @@ fn error_lines(e: &AsepriteParseError) -> String {
 // observe
 // ===========================================================================
 
+/// The complete block text of one input (load + observation).
+fn observe_one(path: &str, opts: &ObsOpts) -> String {
+    let data = match std::fs::read(path) {
+        Ok(d) => d,
+        Err(e) => return unreadable(path, &e),
+    };
+    match AsepriteFile::read(&data[..]) {
+        Err(e) => error_lines(&e),
+        Ok(file) => {
+            let obs = observe_file(&file, opts);
+            let mut s = String::from("1 0\n");
+            s.push_str(&obs.text);
+            if let Some((_bit, msg)) = obs.panic {
+                s.push_str(&format!("# panic: {}\n", msg));
+            }
+            s
+        }
+    }
+}
+
+/// All inputs of the list are processed one after the other on the driver's shared worker thread (see
+/// `on_shared_worker`); `VERIF_FRESH_THREADS=1` gives every input a thread of its own.
 fn mode_observe(out: &mut Out, opts: &ObsOpts, listfile: &str) -> io::Result<()> {
     for (i, path) in read_lines(listfile).into_iter().enumerate() {
         begin(out, i)?;
         let opts = *opts;
-        // The worker builds the complete block text; printing happens here.
-        let block = on_worker(move || {
-            let data = match std::fs::read(&path) {
-                Ok(d) => d,
-                Err(e) => return unreadable(&path, &e),
-            };
-            match AsepriteFile::read(&data[..]) {
-                Err(e) => error_lines(&e),
-                Ok(file) => {
-                    let obs = observe_file(&file, &opts);
-                    let mut s = String::from("1 0\n");
-                    s.push_str(&obs.text);
-                    if let Some((_bit, msg)) = obs.panic {
-                        s.push_str(&format!("# panic: {}\n", msg));
-                    }
-                    s
-                }
-            }
-        });
+        let block = on_shared_worker(move || observe_one(&path, &opts));
         match block {
             Ok(text) => out.write_all(text.as_bytes())?,
             // Only the load itself runs outside the per-section catch_unwind.
@@ -375,7 +379,7 @@ fn sched_load(path: &str, kind: &[String]) -> Result<AsepriteFile, AsepriteParse
 fn mode_sched(out: &mut Out, casefile: &str) -> io::Result<()> {
     for (i, line) in read_lines(casefile).into_iter().enumerate() {
         begin(out, i)?;
-        let block = on_worker(move || {
+        let block = on_shared_worker(move || {
             let words: Vec<String> = line.split_whitespace().map(|s| s.to_string()).collect();
             let path = &words[0];
             let mut s = String::new();
@@ -426,6 +430,9 @@ fn mode_sched(out: &mut Out, casefile: &str) -> io::Result<()> {
 // alloc
 // ===========================================================================
 
+/// Bytes that earlier loads of this process left allocated after their result was dropped.
+static CARRIED: std::sync::atomic::AtomicU64 = std::sync::atomic::AtomicU64::new(0);
+
 fn mode_alloc(out: &mut Out, listfile: &str) -> io::Result<()> {
     for (i, path) in read_lines(listfile).into_iter().enumerate() {
         // Read the input first (not measured) ...
@@ -442,19 +449,28 @@ fn mode_alloc(out: &mut Out, listfile: &str) -> io::Result<()> {
             }
         };
         let input_len = data.len();
-        let measured = on_worker(move || {
+        // All inputs are measured one after the other on the driver's shared worker thread.  What a load leaves
+        // allocated after its result has been dropped (a thread-local scratch buffer, a cache, a leak) is still live
+        // library heap during every later load: it is carried over and added to the peak of the loads that follow.
+        let carried = CARRIED.load(Ordering::SeqCst);
+        let measured = on_shared_worker(move || {
             alloc_reset(); // baseline: live = 0
             ENABLED.store(true, Ordering::SeqCst);
             let r = std::panic::catch_unwind(|| AsepriteFile::read(&data[..]));
-            ENABLED.store(false, Ordering::SeqCst);
-            // `r` (the loaded file) is still alive here; counting is off.
-            let stats = alloc_stats();
+            // the peak while loading (the loaded file is still alive here)
+            let mut stats = alloc_stats();
             let (code, comment) = match &r {
                 Ok(Ok(_)) => (0, None),
                 Ok(Err(e)) => (error_code(e), Some(one_line(&e.to_string()))),
                 Err(_) => (9, Some(format!("panic: {}", last_panic_line()))),
             };
             drop(r);
+            ENABLED.store(false, Ordering::SeqCst);
+            let retained = alloc_live_now();
+            stats.peak_live += carried;
+            if retained > 65536 {
+                CARRIED.fetch_add(retained, Ordering::SeqCst);
+            }
             (code, comment, stats)
         });
         match measured {
